@@ -71,6 +71,7 @@ static const unsigned alpha[] = {'a', 0xe9, 0x20ac, 0x1f600, 0x301, '\n'};
 #define NA 6
 #define MAXL 8
 
+static unsigned long n_cases;
 static void check_string(const int *idx, int n)
 {
 	char s[MAXL * 4 + 8];
@@ -83,6 +84,9 @@ static void check_string(const int *idx, int n)
 	}
 	st[n] = len;
 	s[len] = '\0';
+	nv_case_str = s;
+	if ((++n_cases & 0xfff) == 0)
+		nv_guard(120, "c16-hang", "a block of 4096 strings%s", "");
 #define BAD(what, ...) do { nv_viol("c16-string", "kind=string s=\"%s\" " what, nv_esc(s, len), __VA_ARGS__); return; } while (0)
 	if (uc_slen(s) != n)
 		BAD("uc_slen=%d ref=%d", uc_slen(s), n);
@@ -190,6 +194,7 @@ out:
 int main(int argc, char **argv)
 {
 	nv_init(argc, argv);
+	nv_crash_guard("c16-crash");
 	part_a();
 	part_b(atoi(nv_arg(argc, argv, "maxlen", nv_thorough ? "7" : "5")));
 	return nv_finish();
